@@ -1238,10 +1238,13 @@ Section Step.
       end
     | OpDiceCustom => SUnsup "custom dice"
     | OpDiceFate =>
-      match roll_fate pcg_next roll_fuel (roll_mode cfg) (w_pcg w) with
-      | Roll.OutOfFuel => SFuel
-      | Roll.Done ((sum, _), s) => dice_result sum fr (w_set_pcg w s)
-      end
+      (* four dice, charged before they are rolled (numOpCountAdd(4)) *)
+      let '(w1, over) := add_ops w 4 in
+      if over then SFail EBudget (mk fr w1)
+      else match roll_fate pcg_next roll_fuel (roll_mode cfg) (w_pcg w1) with
+           | Roll.OutOfFuel => SFuel
+           | Roll.Done ((sum, _), s) => dice_result sum fr (w_set_pcg w1 s)
+           end
     | OpCocBonus | OpCocPenalty =>
       with_pop fr (fun v fr1 => with_int v fr1 w (fun n =>
         if n <? 0 then SFail EDice (mk fr1 w)
